@@ -68,6 +68,12 @@ var assets = map[string]*Asset{
 	"wf-opt": {Name: "wf-opt", Files: map[string]string{
 		".github/workflows/reuse-opt.yml": "on:\n  workflow_call:\n    inputs:\n      note:\n        type: string\n    secrets:\n      maybe:\n        required: false\njobs:\n  j:\n    runs-on: ubuntu-latest\n    steps:\n      - run: echo ${{ inputs.note }}\n",
 	}},
+	"act-case": {Name: "act-case", Files: map[string]string{
+		"acts/Deploy/action.yml": "name: Deploy\ndescription: needs a token\ninputs:\n  token:\n    description: t\n    required: true\nruns:\n  using: node20\n  main: index.js\n",
+		"acts/Deploy/index.js":   "\n",
+		"acts/deploy/action.yml": "name: deploy\ndescription: no inputs at all\nruns:\n  using: node20\n  main: index.js\n",
+		"acts/deploy/index.js":   "\n",
+	}},
 	// Interface shapes where the in-memory AST and the re-parsed file could disagree.
 	"wf-nulldefault": {Name: "wf-nulldefault", Files: map[string]string{
 		".github/workflows/reuse-nulldefault.yml": "on:\n  workflow_call:\n    inputs:\n      x:\n        type: number\n        required: true\n        default:\n      y:\n        type: string\n        required: true\n      Upper:\n        type: boolean\n        required: true\n        default: ''\n    secrets:\n      S1:\n        required: true\njobs:\n  j:\n    runs-on: ubuntu-latest\n    steps:\n      - run: echo\n",
@@ -107,13 +113,31 @@ var headers = []string{
 }
 
 // Whole-workflow tie-makers (layouts the block-style fragments cannot express).
-var tieWorkflows = []string{
+// TieWorkflow is a complete workflow text plus the assets it needs.
+type TieWorkflow struct {
+	Text   string
+	Assets []string
+}
+
+var tieWorkflowTexts = []string{
 	// flow-style jobs wrapped over several lines: job positions are anti-correlated in line and column
 	"on: push\njobs: {zz-late-col: {needs: [b], runs-on: ubuntu-latest, steps: [{run: echo}]},\n  b: {needs: [c], runs-on: ubuntu-latest, steps: [{run: echo}]},\n c: {needs: [zz-late-col], runs-on: ubuntu-latest, steps: [{run: echo}]}}\n",
 	"on: push\njobs: {first: {runs-on: ubuntu-latest, steps: [{run: echo}]},            p: {needs: [q], runs-on: ubuntu-latest, steps: [{run: echo}]},\n  q: {needs: [p], runs-on: ubuntu-latest, steps: [{run: echo}]},\n    r: {needs: [r, ghost1, ghost2], runs-on: ubuntu-latest, steps: [{run: echo}]}}\n",
 	// two steps with duplicate ids and two jobs with case-insensitively equal ids in flow style
 	"on: push\njobs:\n  j: {runs-on: ubuntu-latest, steps: [{id: a, run: echo}, {id: A, run: echo},\n    {id: a, run: echo}]}\n",
 }
+
+var tieWorkflows = func() []TieWorkflow {
+	var out []TieWorkflow
+	for _, t := range tieWorkflowTexts {
+		out = append(out, TieWorkflow{Text: t})
+	}
+	// two jobs on ONE line of a flow-style mapping, both using the same defective local action: which of
+	// them reports the action's defects is decided by the job visiting order
+	out = append(out, TieWorkflow{Assets: []string{"act-bad-noname"},
+		Text: "on: push\njobs: {zeta: {runs-on: ubuntu-latest, steps: [{uses: ./act-bad-noname}]}, alpha: {runs-on: ubuntu-latest, steps: [{uses: ./act-bad-noname}]}}\n"})
+	return out
+}()
 
 // Tie-making headers: >= 2 diagnostics at one position from the header itself.
 var tieHeaders = []string{
@@ -169,6 +193,8 @@ var frags = []*Frag{
 	{Name: "popular-action-inputs", Jobs: []FragJob{{ID: "{P}pa", Body: "    runs-on: ubuntu-latest\n    steps:\n      - uses: actions/checkout@v4\n        with:\n          fetch-depth: 0\n          bogus: 1\n      - uses: actions/setup-node@v4\n        with:\n          node-version: 20\n      - uses: actions/upload-artifact@v4\n"}}},
 	{Name: "popular-missing-two", Tie: true, Jobs: []FragJob{{ID: "{P}pm", Body: "    runs-on: ubuntu-latest\n    steps:\n      - uses: actions/cache@v4\n      - uses: actions/cache@v4\n        with:\n          unknown1: a\n          unknown2: b\n"}}},
 	{Name: "local-action-ok", Assets: []string{"act-ok", "act-comp", "act-docker"}, Clean: true, Jobs: []FragJob{{ID: "{P}la", Body: "    runs-on: ubuntu-latest\n    steps:\n      - id: a\n        uses: ./act-ok\n        with:\n          token: t\n      - uses: ./act-comp\n        id: c\n      - uses: ./act-docker\n        with:\n          arg: ${{ steps.a.outputs.result }} ${{ steps.c.outputs.greeting }}\n"}}},
+	{Name: "local-actions-differing-in-case-1", Assets: []string{"act-case"}, Jobs: []FragJob{{ID: "{P}cs1", Body: "    runs-on: ubuntu-latest\n    steps:\n      - uses: ./acts/Deploy\n"}}},
+	{Name: "local-actions-differing-in-case-2", Assets: []string{"act-case"}, Jobs: []FragJob{{ID: "{P}cs2", Body: "    runs-on: ubuntu-latest\n    steps:\n      - uses: ./acts/deploy\n        with:\n          token: t\n"}}},
 	{Name: "local-action-errors", Assets: []string{"act-ok", "act-comp"}, Jobs: []FragJob{{ID: "{P}le", Body: "    runs-on: ubuntu-latest\n    steps:\n      - id: a\n        uses: ./act-ok\n        with:\n          mode: slow\n          bogus: 1\n      - run: echo ${{ steps.a.outputs.nope }}\n      - uses: ./act-comp\n        with:\n          WHO: me\n"}}},
 	{Name: "local-missing-three", Assets: []string{"act-req3"}, Tie: true, Jobs: []FragJob{{ID: "{P}lm", Body: "    runs-on: ubuntu-latest\n    steps:\n      - uses: ./act-req3\n      - uses: ./act-req3\n        with:\n          beta: b\n          zeta: z\n          eta: e\n"}}},
 	{Name: "reuse-typed-ok", Assets: []string{"wf-typed"}, Clean: true, Jobs: []FragJob{
